@@ -360,6 +360,55 @@ fn clone_identity_check<N: ArrayLength>(f: usize, b: usize) -> Result<(), String
     Ok(())
 }
 
+/// No drop glue, but Clone is not a bit copy (it bumps a generation and logs):
+/// a cloned iterator must hold what `[T; N]::into_iter().clone()` holds.
+#[derive(Debug, PartialEq)]
+struct Gen {
+    v: u32,
+    generation: u32,
+}
+thread_local! {
+    static GEN_CLONES: std::cell::Cell<u64> = const { std::cell::Cell::new(0) };
+}
+impl Clone for Gen {
+    fn clone(&self) -> Gen {
+        GEN_CLONES.with(|c| c.set(c.get() + 1));
+        Gen { v: self.v, generation: self.generation + 1 }
+    }
+}
+
+fn gen_clone_twin<N: ArrayLength, const K: usize>(f: usize, b: usize) -> Result<(), String>
+where
+    generic_array::typenum::Const<K>: generic_array::IntoArrayLength<ArrayLength = N>,
+{
+    let nat: [Gen; K] = core::array::from_fn(|i| Gen { v: i as u32 * 3 + 1, generation: 0 });
+    let ga: GA<Gen, N> = GA::from_array(core::array::from_fn(|i| Gen { v: i as u32 * 3 + 1, generation: 0 }));
+    let (mut a, mut g) = (nat.into_iter(), ga.into_iter());
+    for _ in 0..f {
+        a.next();
+        g.next();
+    }
+    for _ in 0..(K - b) {
+        a.next_back();
+        g.next_back();
+    }
+    GEN_CLONES.with(|c| c.set(0));
+    let ac = a.clone();
+    let native_calls = GEN_CLONES.with(|c| c.replace(0));
+    let gc = g.clone();
+    let ga_calls = GEN_CLONES.with(|c| c.get());
+    if gc.as_slice() != ac.as_slice() {
+        return Err(format!("CloneMismatch: cloned iterator holds {:?}, [T;N]::into_iter().clone() holds {:?}", gc.as_slice(), ac.as_slice()));
+    }
+    if ga_calls != native_calls {
+        return Err(format!("CloneMismatch: T::clone called {ga_calls} times, the native array iterator calls it {native_calls} times"));
+    }
+    if g.as_slice() != a.as_slice() {
+        return Err("CloneMismatch: cloning disturbed the original".into());
+    }
+    Ok(())
+}
+
 // ------------------------------------------------------------------ native-array twin
 
 fn native_at<const K: usize>(ids: &[u64], f: usize, b: usize) -> core::array::IntoIter<u64, K> {
@@ -503,12 +552,28 @@ fn part_a<E: Elem + Clone, N: ArrayLength>(st: &mut Stats) {
     }
 }
 
-fn part_a_tok<N: ArrayLength, const K: usize>(st: &mut Stats) {
+fn part_a_tok<N: ArrayLength, const K: usize>(st: &mut Stats)
+where
+    generic_array::typenum::Const<K>: generic_array::IntoArrayLength<ArrayLength = N>,
+{
     let n = N::USIZE;
     for f in 0..=n {
         for b in f..=n {
             let len = b - f;
             // Debug with identities, clone identity relation
+            {
+                let Some(desc) = st.select(|| format!("C06 clone A-gen Gen N={n} pos=({f},{b})")) else { continue };
+                ledger::begin_case();
+                let r = vkit::catch(|| gen_clone_twin::<N, K>(f, b));
+                let res = match r {
+                    vkit::Caught::Returned(x) => x,
+                    vkit::Caught::Injected(..) => Err("HarnessBug: injected".into()),
+                    vkit::Caught::Other(m) => Err(format!("Panic: {m}")),
+                };
+                report(st, "Gen(no-drop,non-bitcopy Clone)", Op::Clone, &desc, res);
+                st.op("clone.gen_twin");
+                st.done(&desc, len > 0);
+            }
             for which in ["debug_ids", "clone_ids"] {
                 let Some(desc) = st.select(|| format!("C06 {which} A Tok N={n} pos=({f},{b})")) else { continue };
                 ledger::begin_case();
